@@ -169,7 +169,89 @@ class Runner:
         return got, s, r, len(rs)
 
 
+def run_concurrent(args):
+    """several clients send addressbook-queries with different filters at the same time (real CLI server / WSGI application
+    in a threaded container): every answer is judged against its own filter"""
+    import threading
+    import time
+    from vf import fe as FE
+    res = common.Result()
+    rng = random.Random(args["seed"])
+    base = common.mkscratch("c12c")
+    if args["fe"] == "aio":
+        w = W.World(base, fe_kind="aio", prefix="/", seed=args["seed"])
+    else:
+        w = W.World(base, fe_kind="wsgihost", prefix="/", seed=args["seed"], server_env={"VF_THREADS": "1"})
+    w.res = res
+    try:
+        O.selftest()
+        w.start()
+        colpath = "/user/contacts/abc/"
+        w.mkcol(colpath, "addressbook")
+        cards = []
+        for name, label, body in gen_cards(rng, 30):
+            s, r = w.call("put", "PUT", w.url(colpath, name), [("Content-Type", "text/vcard")], body, record=False)
+            if W.World.success(s.eff):
+                st, et, served, _ = w.fetch(colpath, name)
+                cards.append((name, served, icl.parse_vcard(served)))
+        fams = []
+        tries = 0
+        while len(fams) < 4 and tries < 400:
+            tries += 1
+            flt, feat = gen_filter(rng, cards)
+            try:
+                exp = {nm for (nm, _, card) in cards if O.matches(flt, card)}
+            except O.Undefined:
+                continue
+            if 0 < len(exp) < len(cards) and all(exp != f[2] for f in fams):
+                fams.append((O.render(flt), feat, exp))
+        if len(fams) < 2:
+            res.inconclusive.append("could not find two filters with distinct answers")
+            return res
+        stop = threading.Event()
+        bad = []
+        counts = {"q": 0}
+
+        def client(i):
+            r = random.Random(args["seed"] + i)
+            while not stop.is_set():
+                fx, feat, exp = fams[(i + (0 if r.random() < 0.7 else 1)) % len(fams)]
+                resp = FE.raw_http(w.fe.addr, "REPORT", w.url(colpath), [("Depth", "1"), X.XML_CT], X.addressbook_query(fx, data=True), timeout=30, half_close=(args["fe"] != "aio"))
+                if resp.status != 207:
+                    bad.append((feat, "status-%s" % resp.status, None))
+                    continue
+                try:
+                    rs, _ = X.parse_multistatus(resp.body)
+                except X.MalformedXML:
+                    bad.append((feat, "ill-formed", None))
+                    continue
+                got = {w.rel_name(x.href or "", colpath) for x in rs} - {None, ""}
+                counts["q"] += 1
+                if got != exp:
+                    bad.append((feat, "differs", sorted(got ^ exp)[:5]))
+        ts = [threading.Thread(target=client, args=(i,)) for i in range(3)]
+        for t in ts:
+            t.start()
+        time.sleep(args["seconds"])
+        stop.set()
+        for t in ts:
+            t.join()
+        res.evaluations += counts["q"]
+        res.count("concurrent_queries_judged", counts["q"])
+        res.seen("concurrent", args["fe"], len(fams), counts["q"] // 50)
+        for feat, what, names in bad[:20]:
+            res.violation(f"concurrent-queries/{args['fe']}/{what}", f"addressbook-query [{feat}] sent while other clients sent other filters: answer {what} {names or ''}", {"config": dict(args)})
+    except Exception:
+        res.inconclusive.append("harness exception: " + traceback.format_exc()[-1500:])
+    finally:
+        w.stop()
+        common.rmtree(base)
+    return res
+
+
 def run_shard(args):
+    if args.get("mode") == "concurrent":
+        return run_concurrent(args)
     res = common.Result()
     rng = random.Random(args["seed"])
     try:
@@ -265,12 +347,15 @@ def check(tier, seed, t0):
     shards = []
     for i in range(12 if not th else 16):
         shards.append({"fe": ["wsgi", "aio"][i % 2], "prefix": "/" if (i // 2) % 2 == 0 else "/dav/", "seed": seed * 100 + i, "cards": 20, "filters": 150 if not th else 1500})
+    for i in range(2 if not th else 6):
+        shards.append({"mode": "concurrent", "fe": ["aio", "wsgi-threads"][i % 2], "seed": seed * 100 + 70 + i, "seconds": 5 if not th else 25})
     results, failures = common.run_shards("vf.props.c12", shards, timeout_s=300 if not th else 2400)
     merged = common.merge(results)
     c = merged["counters"]
     k = 1 if not th else 10
     guards = [("queries", c.get("queries", 0), 3000 * k), ("(card, query) judgements", c.get("judgements", 0), 40000 * k), ("expected matches", c.get("expected_match", 0), 5000 * k),
-              ("expected non-matches", c.get("expected_nomatch", 0), 5000 * k), ("address-data comparisons", c.get("address_data_compared", 0), 3000 * k), ("limited queries", c.get("limited_queries", 0), 300 * k)]
+              ("expected non-matches", c.get("expected_nomatch", 0), 5000 * k), ("address-data comparisons", c.get("address_data_compared", 0), 3000 * k), ("limited queries", c.get("limited_queries", 0), 300 * k),
+              ("answers of concurrent clients sending different filters", c.get("concurrent_queries_judged", 0), 60 * (1 if not th else 6))]
     for f in ("text-match", "presence", "is-not-defined", "param-presence", "param-is-not-defined", "param-text-match", "empty-filter", "edge-whitespace-text"):
         guards.append(("feature " + f, c.get("feature:" + f, 0), 10))
     return common.finish(PROP, tier, seed, "exploration", merged, failures, RULE, t0, guards=guards,
